@@ -10,6 +10,7 @@ are delivered with the next commit of the same request. The full statement is ke
 refuted by a witness and proved under the explicit exclusion.
 -/
 import RqModel.Model.Cdc
+import RqModel.Gen.CdcHook
 namespace C27
 open RqModel.Cdc
 
@@ -32,32 +33,47 @@ def events_equal_committed_changes_full : Prop :=
 /-- the recorded failing inputs: outside a transaction, a statement that fails after touching rows -/
 def failsAfterRows (stmts : List Stmt) : Bool := stmts.any fun s => !s.ok && !s.touched.isEmpty
 
-theorem preupdate_eq (c : Cfg) (p : List Event) (g : List (List Event)) (ch : Change) :
-    preupdate c ⟨p, g⟩ ch = ⟨p ++ [ch].filterMap (convert c), g⟩ := by
+/-- the other two exclusions, both environment conditions of `CommitHook`: the output channel has
+room for every group of the request (a full channel DROPS the group - the commit itself always goes
+through, the hook returns true; delivery under back-pressure is C25's subject), and `ColumnNames`
+succeeds for every table (otherwise the events carry an error instead of column names) -/
+def Undisturbed (c : Cfg) (stmts : List Stmt) : Prop := stmts.length + 1 ≤ c.room ∧ c.colsFail = []
+
+theorem preupdate_eq (c : Cfg) (p : List Event) (g : List (List Event)) (dr : Nat) (ch : Change) :
+    preupdate c ⟨p, g, dr⟩ ch = ⟨p ++ [ch].filterMap (convert c), g, dr⟩ := by
   unfold preupdate
   cases h : convert c ch <;> simp [List.filterMap_cons, h]
 
-theorem preupdates_eq (c : Cfg) (p : List Event) (g : List (List Event)) (chs : List Change) :
-    preupdates c ⟨p, g⟩ chs = ⟨p ++ chs.filterMap (convert c), g⟩ := by
+theorem preupdates_eq (c : Cfg) (p : List Event) (g : List (List Event)) (dr : Nat) (chs : List Change) :
+    preupdates c ⟨p, g, dr⟩ chs = ⟨p ++ chs.filterMap (convert c), g, dr⟩ := by
   induction chs generalizing p with
   | nil => simp [preupdates]
   | cons ch rest ih =>
-    have : preupdates c ⟨p, g⟩ (ch :: rest) = preupdates c (preupdate c ⟨p, g⟩ ch) rest := by
+    have : preupdates c ⟨p, g, dr⟩ (ch :: rest) = preupdates c (preupdate c ⟨p, g, dr⟩ ch) rest := by
       simp [preupdates]
     rw [this, preupdate_eq, ih]
     cases h : convert c ch <;> simp [List.filterMap_cons, h]
 
-theorem commit_flatten (p : List Event) (g : List (List Event)) :
-    (commit ⟨p, g⟩).pending = [] ∧ (commit ⟨p, g⟩).groups.flatten = g.flatten ++ p := by
+theorem markCols_id (c : Cfg) (hc : c.colsFail = []) (evs : List Event) : evs.map (markCols c) = evs := by
+  have : markCols c = id := by funext ev; simp [markCols, hc]
+  rw [this]; simp
+
+/-- with room in the channel and working column lookup the hook delivers what is pending -/
+theorem commit_delivers (c : Cfg) (p : List Event) (g : List (List Event)) (dr : Nat)
+    (hroom : g.length < c.room) (hc : c.colsFail = []) :
+    ∃ g', commit c ⟨p, g, dr⟩ = ⟨[], g', dr⟩ ∧ g'.flatten = g.flatten ++ p ∧ g'.length ≤ g.length + 1 := by
   unfold commit
   cases p with
-  | nil => simp
-  | cons e es => simp
+  | nil => exact ⟨g, by simp, by simp, by omega⟩
+  | cons e es =>
+    refine ⟨g ++ [e :: es], ?_, by simp, by simp⟩
+    simp [hroom, markCols_id c hc]
 
-theorem runAuto_clean (c : Cfg) (g : List (List Event)) (stmts : List Stmt)
-    (hw : WellFormed stmts) (hf : failsAfterRows stmts = false) :
-    (runAuto c ⟨[], g⟩ stmts).pending = [] ∧
-    (runAuto c ⟨[], g⟩ stmts).groups.flatten =
+theorem runAuto_clean (c : Cfg) (g : List (List Event)) (dr : Nat) (stmts : List Stmt)
+    (hw : WellFormed stmts) (hf : failsAfterRows stmts = false)
+    (hroom : g.length + stmts.length ≤ c.room) (hc : c.colsFail = []) :
+    (runAuto c ⟨[], g, dr⟩ stmts).pending = [] ∧
+    (runAuto c ⟨[], g, dr⟩ stmts).groups.flatten =
       g.flatten ++ ((stmts.filter (·.ok)).flatMap (·.touched)).filterMap (convert c) := by
   induction stmts generalizing g with
   | nil => simp [runAuto]
@@ -65,37 +81,35 @@ theorem runAuto_clean (c : Cfg) (g : List (List Event)) (stmts : List Stmt)
     have hw' : WellFormed rest := fun x hx => hw x (by simp [hx])
     simp only [failsAfterRows, List.any_cons, Bool.or_eq_false_iff] at hf
     have hf' : failsAfterRows rest = false := hf.2
+    simp only [List.length_cons] at hroom
     unfold runAuto
     simp only [preupdates_eq, List.nil_append]
     cases hok : s.ok
-    · -- failed: it touched nothing
-      have ht : s.touched = [] := by
+    · have ht : s.touched = [] := by
         have := hf.1
         simp only [hok, Bool.not_false, Bool.true_and, Bool.not_eq_false', List.isEmpty_iff] at this
         exact this
       simp only [Bool.false_eq_true, if_false, ht, List.filterMap_nil]
-      have := ih g hw' hf'
+      have := ih g hw' hf' (by omega)
       simp [List.filter_cons, hok, this]
     · simp only [if_true]
       cases hwr : s.writes
       · have ht : s.touched = [] := hw s (by simp) hwr
         simp only [Bool.false_eq_true, if_false, ht, List.filterMap_nil]
-        have := ih g hw' hf'
+        have := ih g hw' hf' (by omega)
         simp [List.filter_cons, hok, ht, this]
       · simp only [if_true]
-        obtain ⟨hp, hg⟩ := commit_flatten (s.touched.filterMap (convert c)) g
-        have hc : commit ⟨s.touched.filterMap (convert c), g⟩ = ⟨[], (commit ⟨s.touched.filterMap (convert c), g⟩).groups⟩ := by
-          cases hcm : commit ⟨s.touched.filterMap (convert c), g⟩ with
-          | mk p gg => rw [hcm] at hp; simp at hp; simp [hp]
-        rw [hc]
-        have := ih (commit ⟨s.touched.filterMap (convert c), g⟩).groups hw' hf'
-        rw [this.1, this.2, hg]
+        obtain ⟨g', hcm, hfl, hlen⟩ := commit_delivers c (s.touched.filterMap (convert c)) g dr (by omega) hc
+        rw [hcm]
+        have := ih g' hw' hf' (by omega)
+        rw [this.1, this.2, hfl]
         simp [List.filter_cons, hok, List.flatMap_cons, List.filterMap_append, List.append_assoc]
 
-theorem runTx_eq (c : Cfg) (p : List Event) (g : List (List Event)) (stmts : List Stmt) :
-    (runTx c ⟨p, g⟩ stmts).2 = stmts.all (·.ok) ∧ (runTx c ⟨p, g⟩ stmts).1.groups = g ∧
-    ((runTx c ⟨p, g⟩ stmts).2 = true →
-      (runTx c ⟨p, g⟩ stmts).1.pending = p ++ (stmts.flatMap (·.touched)).filterMap (convert c)) := by
+theorem runTx_eq (c : Cfg) (p : List Event) (g : List (List Event)) (dr : Nat) (stmts : List Stmt) :
+    (runTx c ⟨p, g, dr⟩ stmts).2 = stmts.all (·.ok) ∧ (runTx c ⟨p, g, dr⟩ stmts).1.groups = g ∧
+    (runTx c ⟨p, g, dr⟩ stmts).1.dropped = dr ∧
+    ((runTx c ⟨p, g, dr⟩ stmts).2 = true →
+      (runTx c ⟨p, g, dr⟩ stmts).1.pending = p ++ (stmts.flatMap (·.touched)).filterMap (convert c)) := by
   induction stmts generalizing p with
   | nil => simp [runTx]
   | cons s rest ih =>
@@ -104,37 +118,38 @@ theorem runTx_eq (c : Cfg) (p : List Event) (g : List (List Event)) (stmts : Lis
     cases hok : s.ok
     · simp [hok]
     · simp only [if_true]
-      obtain ⟨h1, h2, h3⟩ := ih (p ++ s.touched.filterMap (convert c))
-      refine ⟨by simp [h1, hok], h2, fun hh => ?_⟩
-      rw [h3 hh]
+      obtain ⟨h1, h2, h3, h4⟩ := ih (p ++ s.touched.filterMap (convert c))
+      refine ⟨by simp [h1, hok], h2, h3, fun hh => ?_⟩
+      rw [h4 hh]
       simp [List.flatMap_cons, List.filterMap_append, List.append_assoc]
 
-/-- Under the exclusion - in a transaction request unconditionally, otherwise when no statement
-fails after touching rows - the delivered events are exactly the committed row changes of the
-matching tables, in order: operation, table, row ids and values are those of the change
-(`convert` is the transcription of convertFn: see `convert_describes_change`). For every configuration and every statement list. -/
+/-- Under the exclusions - the channel has room and column lookup works (`Undisturbed`), and, outside
+a transaction request, no statement fails after touching rows - the delivered events are exactly
+`convertFn` of the committed row changes of the matching tables, in order
+(`convert` is the transcription of convertFn: see `convert_describes_change`).
+For every configuration and every statement list. -/
 theorem events_equal_committed_changes_partial (c : Cfg) (tx : Bool) (stmts : List Stmt)
-    (hw : WellFormed stmts) (hx : tx = true ∨ failsAfterRows stmts = false) :
+    (hw : WellFormed stmts) (hu : Undisturbed c stmts) (hx : tx = true ∨ failsAfterRows stmts = false) :
     delivered (request c tx stmts) = (committedChanges tx stmts).filterMap (convert c) := by
+  obtain ⟨hroom, hc⟩ := hu
   unfold request delivered committedChanges
   cases tx
   · simp only [Bool.false_eq_true, if_false]
     have hf : failsAfterRows stmts = false := by rcases hx with h | h; cases h; exact h
-    have := (runAuto_clean c [] stmts hw hf).2
+    have := (runAuto_clean c [] 0 stmts hw hf (by simp; omega) hc).2
     simpa using this
   · simp only [if_true]
-    obtain ⟨h1, h2, h3⟩ := runTx_eq c [] [] stmts
+    obtain ⟨h1, h2, h3, h4⟩ := runTx_eq c [] [] 0 stmts
     cases hall : stmts.all (·.ok)
     · have : (runTx c {} stmts).2 = false := by rw [h1, hall]
       simp only [this, Bool.false_and, Bool.false_eq_true, if_false]
       rw [h2]; simp
     · have hok : (runTx c {} stmts).2 = true := by rw [h1, hall]
       simp only [hok, Bool.true_and, if_true]
-      have hp := h3 hok
+      have hp := h4 hok
       simp only [List.nil_append] at hp
       cases hany : stmts.any (fun s => s.writes)
-      · -- no statement writes: nothing was touched, nothing is delivered
-        have hnil : stmts.flatMap (·.touched) = [] := by
+      · have hnil : stmts.flatMap (·.touched) = [] := by
           simp only [List.flatMap_eq_nil_iff]
           intro s hs
           have : s.writes = false := by
@@ -145,14 +160,23 @@ theorem events_equal_committed_changes_partial (c : Cfg) (tx : Bool) (stmts : Li
       · simp only [if_true]
         cases hst : runTx c {} stmts with
         | mk st ok =>
-          rw [hst] at h2 hp
-          simp only at h2 hp
-          obtain ⟨_, hg⟩ := commit_flatten st.pending st.groups
-          have : st = ⟨st.pending, st.groups⟩ := rfl
-          rw [this, hg, h2, hp]
+          rw [hst] at h2 h3 hp
+          simp only at h2 h3 hp
+          obtain ⟨pp, gg, dd⟩ := st
+          simp only at h2 h3 hp
+          subst h2
+          obtain ⟨g', hcm, hfl, _⟩ := commit_delivers c pp [] dd (by simp; omega) hc
+          rw [hcm, hfl, hp]
           simp
 
-/-- witness: the failed first statement's row 3 is delivered with the second statement's commit -/
+/-- witness for the channel: with no room the committed change is NOT delivered - it is counted as
+dropped; the database change itself is committed regardless (the hook returns true) -/
+theorem events_dropped_when_channel_full_witness :
+    let c : Cfg := { idsOnly := false, tables := none, room := 0 }
+    let r := request c false [⟨[{ table := "t", id := 1 }], true, true⟩]
+    delivered r = [] ∧ r.dropped = 1 ∧
+    (committedChanges false [⟨[{ table := "t", id := 1 }], true, true⟩]).filterMap (convert c) ≠ [] := by decide
+
 def ins (t : String) (id : Nat) (rowid : Int) (row : Row) : Change :=
   { table := t, id := id, op := .insert, newRowID := rowid, new := row }
 
@@ -160,53 +184,69 @@ def insEv (t : String) (id : Nat) (rowid : Int) (row : Option Row) : Event :=
   { table := t, id := id, op := .insert, newRowId := rowid, newRow := row }
 
 theorem events_phantom_witness :
-    delivered (request ⟨false, none⟩ false
+    delivered (request { idsOnly := false, tables := none } false
         [⟨[ins "t" 3 503 [.int 1]], false, true⟩, ⟨[ins "t" 4 7 [.text "a"]], true, true⟩]) =
       [insEv "t" 3 503 (some [.int 1]), insEv "t" 4 7 (some [.text "a"])] ∧
     (committedChanges false
         [⟨[ins "t" 3 503 [.int 1]], false, true⟩, ⟨[ins "t" 4 7 [.text "a"]], true, true⟩]).filterMap
-        (convert ⟨false, none⟩) =
+        (convert { idsOnly := false, tables := none }) =
       [insEv "t" 4 7 (some [.text "a"])] := by decide
 
 theorem events_equal_committed_changes_full_is_false : ¬ events_equal_committed_changes_full := by
   intro h
-  have := h ⟨false, none⟩ false
+  have := h { idsOnly := false, tables := none } false
     [⟨[ins "t" 3 503 [.int 1]], false, true⟩, ⟨[ins "t" 4 7 [.text "a"]], true, true⟩]
     (by intro s hs hwr; simp at hs; rcases hs with h | h <;> subst h <;> simp at hwr)
   rw [events_phantom_witness.1, events_phantom_witness.2] at this
   revert this
   decide
 
-example : delivered (request ⟨false, some ["t1"]⟩ true
+example : delivered (request { idsOnly := false, tables := some ["t1"] } true
     [⟨[ins "t1" 1 1 [.null], ins "t2" 2 1 []], true, true⟩, ⟨[], true, false⟩, ⟨[ins "t1" 3 2 [.blob [0, 255]]], true, true⟩]) =
     [insEv "t1" 1 1 (some [.null]), insEv "t1" 3 2 (some [.blob [0, 255]])] := by decide
 
 /-! ### row-ids-only and the table filter: unconditional -/
 
+/-- `ev` is `ev0` as convertFn made it, possibly marked with a column-lookup error at commit time -/
+def FromEvent (ev ev0 : Event) : Prop := ev = ev0 ∨ ev = { ev0 with error := true }
+
 /-- every event anywhere in the streamer state comes from `convert` of some change -/
 def FromConvert (c : Cfg) (st : St) : Prop :=
-  ∀ ev, (ev ∈ st.pending ∨ ev ∈ st.groups.flatten) → ∃ ch, convert c ch = some ev
+  ∀ ev, (ev ∈ st.pending ∨ ev ∈ st.groups.flatten) → ∃ ch ev0, convert c ch = some ev0 ∧ FromEvent ev ev0
 
 theorem preupdates_inv (c : Cfg) (st : St) (chs : List Change) (h : FromConvert c st) :
     FromConvert c (preupdates c st chs) := by
-  obtain ⟨p, g⟩ := st
+  obtain ⟨p, g, dr⟩ := st
   rw [preupdates_eq]
   intro ev hev
   simp only [List.mem_append, List.mem_filterMap] at hev
   rcases hev with (h1 | ⟨ch, _, hc⟩) | h2
   · exact h ev (Or.inl h1)
-  · exact ⟨ch, hc⟩
+  · exact ⟨ch, ev, hc, Or.inl rfl⟩
   · exact h ev (Or.inr h2)
 
-theorem commit_inv (c : Cfg) (st : St) (h : FromConvert c st) : FromConvert c (commit st) := by
-  obtain ⟨p, g⟩ := st
-  obtain ⟨hp, hg⟩ := commit_flatten p g
-  intro ev hev
-  rw [hp, hg] at hev
-  simp only [List.not_mem_nil, false_or, List.mem_append] at hev
-  rcases hev with h1 | h1
-  · exact h ev (Or.inr h1)
-  · exact h ev (Or.inl h1)
+theorem commit_inv (c : Cfg) (st : St) (h : FromConvert c st) : FromConvert c (commit c st) := by
+  obtain ⟨p, g, dr⟩ := st
+  unfold commit
+  split
+  · exact h
+  · split
+    · intro ev hev
+      simp only [List.not_mem_nil, false_or, List.flatten_append, List.flatten_cons, List.flatten_nil,
+        List.append_nil, List.mem_append, List.mem_map] at hev
+      rcases hev with h1 | ⟨e, he, rfl⟩
+      · exact h ev (Or.inr h1)
+      · obtain ⟨ch, ev0, hc, hfe⟩ := h e (Or.inl he)
+        refine ⟨ch, ev0, hc, ?_⟩
+        unfold markCols
+        split
+        · rcases hfe with rfl | rfl
+          · exact Or.inr rfl
+          · exact Or.inr rfl
+        · exact hfe
+    · intro ev hev
+      simp only [List.not_mem_nil, false_or] at hev
+      exact h ev (Or.inr hev)
 
 theorem runAuto_inv (c : Cfg) (st : St) (stmts : List Stmt) (h : FromConvert c st) :
     FromConvert c (runAuto c st stmts) := by
@@ -296,20 +336,27 @@ rows are never read in that mode). -/
 theorem ids_only_has_no_values (c : Cfg) (tx : Bool) (stmts : List Stmt) (hi : c.idsOnly = true) :
     ∀ ev ∈ delivered (request c tx stmts), ev.oldRow = none ∧ ev.newRow = none := by
   intro ev hev
-  obtain ⟨ch, hc⟩ := request_inv c tx stmts ev (Or.inr hev)
-  exact convert_idsOnly c ch ev hc hi
+  obtain ⟨ch, ev0, hc, hfe⟩ := request_inv c tx stmts ev (Or.inr hev)
+  have := convert_idsOnly c ch ev0 hc hi
+  rcases hfe with rfl | rfl
+  · exact this
+  · exact this
 
 /-- With a table filter only matching tables appear, for every request. -/
 theorem filter_only_matching_tables (c : Cfg) (tx : Bool) (stmts : List Stmt) (ts : List String)
     (hf : c.tables = some ts) : ∀ ev ∈ delivered (request c tx stmts), ev.table ∈ ts := by
   intro ev hev
-  obtain ⟨ch, hc⟩ := request_inv c tx stmts ev (Or.inr hev)
-  exact (convert_filter c ch ev hc).2 ts hf
+  obtain ⟨ch, ev0, hc, hfe⟩ := request_inv c tx stmts ev (Or.inr hev)
+  have := (convert_filter c ch ev0 hc).2 ts hf
+  rcases hfe with rfl | rfl
+  · exact this
+  · exact this
 
 /-- every delivered event describes some row change SQLite reported, with exactly its operation,
-table, row ids and (outside row-ids-only mode) before/after rows -/
+table, row ids and (outside row-ids-only mode) before/after rows; the only thing commit time can add
+is the error mark of a failed column lookup -/
 theorem delivered_events_describe_reported_changes (c : Cfg) (tx : Bool) (stmts : List Stmt) :
-    ∀ ev ∈ delivered (request c tx stmts), ∃ d, convert c d = some ev :=
+    ∀ ev ∈ delivered (request c tx stmts), ∃ d ev0, convert c d = some ev0 ∧ FromEvent ev ev0 :=
   fun ev hev => request_inv c tx stmts ev (Or.inr hev)
 
 /-- … and a matching table's change is never filtered out -/
@@ -324,7 +371,7 @@ theorem filter_keeps_matching (c : Cfg) (d : Change)
   simp only [hm, Bool.not_true, Bool.false_eq_true, if_false]
   cases baseEvent d <;> cases c.idsOnly <;> simp
 
-example : delivered (request ⟨true, some ["t1"]⟩ false
+example : delivered (request { idsOnly := true, tables := some ["t1"] } false
     [⟨[ins "t1" 1 9 [.int 5], ins "t2" 2 1 []], true, true⟩]) = [insEv "t1" 1 9 none] := by decide
 
 def updDemo : Change :=
@@ -335,6 +382,17 @@ def updDemoEv : Event :=
   { table := "t", id := 1, op := .update, oldRowId := 4, newRowId := 5,
     oldRow := some [.int 1, .text "a"], newRow := some [.int 2, .text "a"] }
 
-example : convert ⟨false, none⟩ updDemo = some updDemoEv := by decide
+example : convert { idsOnly := false, tables := none } updDemo = some updDemoEv := by decide
+
+/-! ### the commit hook never vetoes a commit (regenerated fact) -/
+
+/-- Every `return` of CDCStreamer.CommitHook is the literal `true`, and its send to the output channel
+cannot block (select with default): the hook is registered as SQLite's commit hook, so any other
+result would turn a COMMIT into a ROLLBACK on this node only - CDC back-pressure would decide the
+database's contents. The model's `commit` accordingly never touches the database. Regenerated from
+db/cdc.go on every run. -/
+theorem commit_hook_always_lets_the_commit_through :
+    RqModel.Gen.CdcHook.commitHookReturns = ["true", "true"] ∧
+    RqModel.Gen.CdcHook.commitHookSendsNonBlocking = true := by decide
 
 end C27
